@@ -117,6 +117,20 @@ type c02ValidReq struct {
 	txid  [stun.TransactionIDSize]byte
 	srcAt netip.AddrPort
 	to    *simSock
+	raw   []byte
+}
+
+// c02IntegrityOffset returns the offset of the 20-byte MESSAGE-INTEGRITY value in a raw STUN message (-1: none).
+func c02IntegrityOffset(raw []byte) int {
+	for off := 20; off+4 <= len(raw); {
+		typ, l := int(raw[off])<<8|int(raw[off+1]), int(raw[off+2])<<8|int(raw[off+3])
+		if typ == int(stun.AttrMessageIntegrity) && l == 20 && off+24 <= len(raw) {
+			return off + 4
+		}
+		off += 4 + (l+3)/4*4
+	}
+
+	return -1
 }
 
 type c02Outstanding struct {
@@ -391,6 +405,7 @@ func TestVerif_C02_Injection(t *testing.T) {
 			nMut := rapid.SampledFrom([]int{0, 1, 1, 1, 1, 2}).Draw(rt, "nMut")
 			var muts []string
 			corrupt, truncate := -1, -1
+			var copyMIFrom []byte
 			fingerprint := rapid.SampledFrom([]string{"good", "bad", "absent"}).Draw(rt, "fingerprint")
 			extra := rapid.SampledFrom([]string{"", "", "use", "nomination", "unknown", "xor"}).Draw(rt, "extraAttr")
 			for k := 0; k < nMut; k++ {
@@ -403,6 +418,7 @@ func TestVerif_C02_Injection(t *testing.T) {
 					"key-other-side", "key-prev-gen", "key-random", "key-absent", "corrupt-byte", "truncate",
 					"class-indication", "class-error", "class-flip", "method", "txid-random", "txid-answered",
 					"src-other-known", "src-unknown", "src-other-family", "src-port", "to-other-transport", "replay-authenticated-request-unsigned",
+					"replay-authenticated-request-copied-integrity",
 				}...)).Draw(rt, "mutation")
 				muts = append(muts, mu)
 				switch mu {
@@ -488,6 +504,24 @@ func TestVerif_C02_Injection(t *testing.T) {
 						username = cur.localU + ":" + cur.remoteU
 						key = rapid.SampledFrom([]string{"", "randomPasswordRandomPassword00"}).Draw(rt, "replayKey")
 					}
+				case "replay-authenticated-request-copied-integrity":
+					// a forged retransmission: transaction id, source, destination and the MESSAGE-INTEGRITY bytes of a
+					// request the agent has authenticated, around a different content (USE-CANDIDATE added or removed,
+					// another USERNAME): a receiver that remembers answered transactions must still verify the HMAC
+					if len(recentValid) > 0 {
+						rv := recentValid[rapid.IntRange(0, len(recentValid)-1).Draw(rt, "whichValid")]
+						class, method, txid, srcAt, to = stun.ClassRequest, stun.MethodBinding, rv.txid, rv.srcAt, rv.to
+						key = "randomPasswordRandomPassword00"
+						copyMIFrom = rv.raw
+						switch rapid.IntRange(0, 2).Draw(rt, "forgedContent") {
+						case 0:
+							extra = "use"
+						case 1:
+							extra = "nomination"
+						default:
+							username = cur.localU + ":" + "zzzz"
+						}
+					}
 				case "to-other-transport":
 					// the same ip:port is the peer's UDP and TCP endpoint: the message arrives over the other transport
 					for _, sk := range s.ag.socks {
@@ -530,12 +564,22 @@ func TestVerif_C02_Injection(t *testing.T) {
 				setters = append(setters, stun.NewShortTermIntegrity(""))
 				muts = append(muts, "signed-with-the-empty-key")
 			}
-			if fingerprint != "absent" {
+			if fingerprint != "absent" && copyMIFrom == nil {
 				setters = append(setters, stun.Fingerprint)
 			}
 			msg, err := stun.Build(setters...)
 			if err != nil {
 				rt.Fatalf("harness: build: %v", err)
+			}
+			if copyMIFrom != nil {
+				if dst, src := c02IntegrityOffset(msg.Raw), c02IntegrityOffset(copyMIFrom); dst >= 0 && src >= 0 {
+					copy(msg.Raw[dst:dst+20], copyMIFrom[src:src+20])
+				}
+				if fingerprint != "absent" {
+					if err := stun.Fingerprint.AddTo(msg); err != nil {
+						rt.Fatalf("harness: fingerprint: %v", err)
+					}
+				}
 			}
 			raw := append([]byte{}, msg.Raw...)
 			if fingerprint == "bad" {
@@ -591,7 +635,7 @@ func TestVerif_C02_Injection(t *testing.T) {
 				}
 			case "effective":
 				if class == stun.ClassRequest {
-					recentValid = append(recentValid, c02ValidReq{txid: txid, srcAt: srcAt, to: to})
+					recentValid = append(recentValid, c02ValidReq{txid: txid, srcAt: srcAt, to: to, raw: append([]byte{}, raw...)})
 				}
 				if nMut == 0 && class == stun.ClassRequest {
 					// sanity of the harness: the unmodified template must be answered, otherwise near-misses are not near
